@@ -247,6 +247,14 @@ fn collect(state: &State, possible_cycles: &PossibleCycles) {
 
     let _drop_guard = DropGuard { state };
 
+    // collect() can be reached from a finalizer, destructor or cleaning action run by a plain Cc::drop,
+    // which has already set the finalizing/dropping flags. They describe the enclosing drop, not this
+    // collection: clear them for its duration (they are restored on exit), so that is_tracing() and
+    // Weak::upgrade() see the phases of this collection.
+    #[cfg(feature = "finalization")]
+    let _finalizing_guard = replace_state_field!(finalizing, false, state);
+    let _dropping_guard = replace_state_field!(dropping, false, state);
+
     #[cfg(feature = "finalization")]
     for _ in 0..10 {
         // Limit to 10 executions. A collection usually completes in 2 executions, so passing
